@@ -46,6 +46,9 @@ pub struct SymbolMap {
     name_to_defset: HashMap<EcoString, DefsetId>,
     name_to_defm: HashMap<EcoString, DefmId>,
     defm_record_names: HashSet<EcoString>,
+    /// the beginnings of record names that are completed by a computed part (`def R#i`,
+    /// `def NAME#"_"#tag` instantiated by a defm), with the record that stands for them all
+    record_name_prefixes: Vec<(EcoString, Option<RecordId>)>,
     file_to_symbol_list: HashMap<FileId, Vec<SymbolId>>,
     pos_to_symbol_map: HashMap<FileId, IntervalMap<TextSize, SymbolId>>,
 }
@@ -153,7 +156,7 @@ impl SymbolMap {
 
     /// The names, relative to an instantiating defm, of the records that the multiclass and the
     /// multiclasses it inherits from define.
-    pub fn record_names_of_multiclass(&self, multiclass_id: MulticlassId) -> Vec<EcoString> {
+    pub fn record_names_of_multiclass(&self, multiclass_id: MulticlassId) -> Vec<(EcoString, bool)> {
         let mut names = Vec::new();
         let mut visited = HashSet::new();
         let mut stack = vec![multiclass_id];
@@ -176,6 +179,23 @@ impl SymbolMap {
 
     pub fn is_defm_record_name(&self, name: &EcoString) -> bool {
         self.defm_record_names.contains(name)
+    }
+
+    /// Records whose name begins with `prefix` exist; how the names go on is computed.
+    pub fn add_record_name_prefix(&mut self, prefix: EcoString, record_id: Option<RecordId>) {
+        if !prefix.is_empty() {
+            self.record_name_prefixes.push((prefix, record_id));
+        }
+    }
+
+    /// `name` may be the name of a record with a computed name: it begins like one (and goes
+    /// on). The longest such beginning decides; `Some(None)` if the class is not known.
+    pub fn find_record_by_name_prefix(&self, name: &EcoString) -> Option<Option<RecordId>> {
+        self.record_name_prefixes
+            .iter()
+            .filter(|(prefix, _)| name.len() > prefix.len() && name.starts_with(prefix.as_str()))
+            .max_by_key(|(prefix, _)| prefix.len())
+            .map(|(_, record_id)| *record_id)
     }
 
     pub fn defm(&self, defm_id: DefmId) -> &Defm {
